@@ -112,6 +112,24 @@ def parse_printed(line):
     return tag, vals
 
 
+_purged = []
+
+
+def _purge_stale(hours=8):
+    """run directories left behind by killed checks are removed once they are clearly abandoned"""
+    if _purged:
+        return
+    _purged.append(True)
+    now = time.time()
+    try:
+        for d in os.listdir(WORK):
+            pth = os.path.join(WORK, d)
+            if d.startswith("tlc-") and now - os.path.getmtime(pth) > hours * 3600:
+                shutil.rmtree(pth, ignore_errors=True)
+    except OSError:
+        pass
+
+
 def run(module, cfg, *, workers=16, simulate=None, depth=None, seed=None, timeout=3600, sink=None,
         env=None, coverage=False, extra_files=None, java_opts=None, extra_modules=None,
         deadlock=False, dfid=None, keep_stdout=False, expect_violation=False):
@@ -122,6 +140,7 @@ def run(module, cfg, *, workers=16, simulate=None, depth=None, seed=None, timeou
     extra_modules: dict name -> TLA+ text for generated modules (written as <name>.tla).
     """
     os.makedirs(WORK, exist_ok=True)
+    _purge_stale()
     rd = os.path.join(WORK, "tlc-%s-%d-%s" % (module, os.getpid(), uuid.uuid4().hex[:8]))
     os.makedirs(rd)
     res = TLCResult()
